@@ -102,7 +102,9 @@ func c10TTLs(tier string) []time.Duration {
 		100 * 365 * 24 * time.Hour} // -100y puts the expiry instant before the Unix epoch (negative timestamp)
 	if tier == "thorough" {
 		base = append(base, 2*time.Nanosecond, 7*time.Nanosecond, 333*time.Millisecond, time.Hour+time.Nanosecond,
-			20*time.Second, 250*365*24*time.Hour, 3*time.Nanosecond, 999*time.Nanosecond)
+			20*time.Second, 150*365*24*time.Hour, 3*time.Nanosecond, 999*time.Nanosecond)
+		// 150 years is the upper end: expiry instants are kept as int64 Unix nanoseconds (representable up to
+		// the year 2262), t+T(1+J/2) must stay inside that range for the statement to be expressible at all
 	}
 
 	return base
@@ -384,6 +386,7 @@ func init() {
 		Assumptions: []string{
 			"Trait.TTL is affine and monotone in the rand answer, so the two extreme answers bound every value rand.Float64 can return; interior points guard the argument",
 			"slack of 1ns + |T|*2^-50 on the bounds for the implementation's float64 arithmetic",
+			"domain: t+T(1+J/2) representable as int64 Unix nanoseconds (before the year 2262), i.e. |T| <= 150 years from the virtual epoch 2030; beyond that neither time.Duration nor the stored expiry can express the instant",
 			"the expiry instant itself is unconstrained, as in the statement",
 		},
 	})
